@@ -65,6 +65,9 @@ class LawfulNum (N : Type) [NumOps N] : Prop where
   cmp_eq_iff : ∀ a b : N, NumOps.cmp a b = .eq ↔ a = b
   toInt_ofInt : ∀ i : Int, NumOps.toInt? (NumOps.ofInt i : N) = some i
   ofInt_inj : ∀ i j : Int, (NumOps.ofInt i : N) = NumOps.ofInt j → i = j
+  /-- integers are not NaN and are their own floor (so they index arrays exactly) -/
+  isNan_ofInt : ∀ i : Int, NumOps.isNan (NumOps.ofInt i : N) = false
+  floor_ofInt : ∀ i : Int, NumOps.math "floor" (NumOps.ofInt i : N) = some (NumOps.ofInt i)
 
 namespace JV
 variable {N : Type}
@@ -226,23 +229,64 @@ def listSet (xs : List α) (i : Nat) (v : α) (pad : α) : List α :=
 def resolveIdx (i : Int) (len : Nat) : Option Nat :=
   if i ≥ 0 then some i.toNat else if i + len ≥ 0 then some (i + len).toNat else none
 
+/-- array index of a number key: floor (jq 1.7.1 `jv_array_get(t, (int)floor)`), `some none` for NaN
+(reads as null), `none` when not representable (no verdict) -/
+def idxOf (n : N) : Option (Option Int) :=
+  if NumOps.isNan n then some none
+  else match NumOps.math "floor" n with
+    | some f => (NumOps.toInt? f).map some
+    | none => none
+
+def clampSlice (i : Int) (len : Nat) : Nat :=
+  let j := if i < 0 then i + len else i
+  if j < 0 then 0 else if j > len then len else j.toNat
+
+/-- resolve a slice key `{"start":s,"end":e}` against a length (jq's `parse_slice`: floor the start,
+ceil the end, fold negatives, clamp, pull `end` up to `start`) -/
+def sliceRange (k : List (String × JV N)) (len : Nat) : Except String (Nat × Nat) :=
+  match JV.lookup k "start", JV.lookup k "end" with
+  | some lo, some hi =>
+    let bound (b : JV N) (dflt : Int) (up : Bool) : Except String Int :=
+      match b with
+      | .null => .ok dflt
+      | .num n =>
+        (match NumOps.math (if up then "ceil" else "floor") n with
+         | some f => (match NumOps.toInt? f with | some i => .ok i | none => .error "UNMODELLED slice bound")
+         | none => .error "UNMODELLED slice bound")
+      | _ => .error "Array/string slice indices must be integers"
+    match bound lo 0 false, bound hi len true with
+    | .ok a, .ok b =>
+      let s := clampSlice a len
+      let e := clampSlice b len
+      .ok (s, if e < s then s else e)
+    | .error m, _ => .error m
+    | _, .error m => .error m
+  | _, _ => .error "Array/string slice indices must be integers"
+
 /-- one step of `getpath` on a value; `Except` carries jq's message -/
 def JV.getStep (v : JV N) (k : JV N) : Except String (JV N) :=
   match v, k with
   | .null, .str _ => .ok .null
   | .null, .num _ => .ok .null
   | .null, .null => .ok .null
+  | .null, .obj _ => .ok .null
   | .obj fs, .str s => .ok ((JV.lookup fs s).getD .null)
   | .arr xs, .num n =>
-    match NumOps.toInt? n with
-    | some i =>
+    match idxOf n with
+    | some (some i) =>
       match resolveIdx i xs.length with
       | some j => .ok (xs.getD j .null)
       | none => .ok .null
+    | some none => .ok .null
     | none => .error "UNMODELLED non-integer index"
-  | .arr _, .obj _ => .error "UNMODELLED slice path"
-  | .str _, .obj _ => .error "UNMODELLED slice path"
-  | .null, .obj _ => .error "UNMODELLED slice path"
+  | .arr xs, .obj k =>
+    (match sliceRange k xs.length with
+     | .ok (s, e) => .ok (.arr ((xs.drop s).take (e - s)))
+     | .error m => .error m)
+  | .str st, .obj k =>
+    (match sliceRange k st.length with
+     | .ok (s, e) => .ok (.str (String.ofList ((st.toList.drop s).take (e - s))))
+     | .error m => .error m)
   | v, .str s => .error s!"Cannot index {v.typeName} with string \"{s}\""
   | v, k => .error s!"Cannot index {v.typeName} with {k.typeName}"
 
@@ -250,34 +294,39 @@ def JV.getpath (v : JV N) : List (JV N) → Except String (JV N)
   | [] => .ok v
   | k :: rest => do
     let w ← v.getStep k
-    -- jq: `null | getpath(anything)` is null without looking at the rest
-    match w, rest with
-    | w, rest => JV.getpath w rest
+    JV.getpath w rest
 
 /-- `setpath` with a continuation on the old value (jq's `jv_setpath` / `_modify`), auto-vivifying
 `null`, padding arrays with `null`. -/
 def JV.updStep (v : JV N) (k : JV N) (f : JV N → Except String (JV N)) : Except String (JV N) :=
+  let setIdx (xs : List (JV N)) (n : N) : Except String (JV N) :=
+    match idxOf n with
+    | some (some i) =>
+      (match resolveIdx i xs.length with
+       | some j =>
+         if j > xs.length + 100000 then .error "UNMODELLED huge index"
+         else do let w ← f (xs.getD j .null); .ok (.arr (listSet xs j w .null))
+       | none => .error "Out of bounds negative array index")
+    | some none => .error "Cannot set array element at NaN index"
+    | none => .error "UNMODELLED non-integer index"
+  let setSlice (xs : List (JV N)) (k : List (String × JV N)) : Except String (JV N) :=
+    match sliceRange k xs.length with
+    | .ok (s, e) => do
+      let w ← f (.arr ((xs.drop s).take (e - s)))
+      match w with
+      | .arr ys => .ok (.arr (xs.take s ++ ys ++ xs.drop e))
+      | _ => .error "A slice of an array can only be assigned another array"
+    | .error m => .error m
   match v, k with
   | .null, .str s => do let w ← f .null; .ok (.obj [(s, w)])
   | .obj fs, .str s => do
     let w ← f ((JV.lookup fs s).getD .null)
     .ok (.obj (JV.insert fs s w))
-  | .null, .num n =>
-    match NumOps.toInt? n with
-    | some i =>
-      if i < 0 then .error "Out of bounds negative array index"
-      else do let w ← f .null; .ok (.arr (listSet [] i.toNat w .null))
-    | none => .error "UNMODELLED non-integer index"
-  | .arr xs, .num n =>
-    match NumOps.toInt? n with
-    | some i =>
-      match resolveIdx i xs.length with
-      | some j => do let w ← f (xs.getD j .null); .ok (.arr (listSet xs j w .null))
-      | none => .error "Out of bounds negative array index"
-    | none => .error "UNMODELLED non-integer index"
-  | .arr _, .obj _ => .error "UNMODELLED slice path"
-  | .str _, .obj _ => .error "UNMODELLED slice path"
-  | .null, .obj _ => .error "UNMODELLED slice path"
+  | .null, .num n => setIdx [] n
+  | .arr xs, .num n => setIdx xs n
+  | .arr xs, .obj k => setSlice xs k
+  | .null, .obj k => setSlice [] k
+  | .str _, .obj _ => .error "Cannot update string slices"
   | v, .str s => .error s!"Cannot index {v.typeName} with string \"{s}\""
   | v, k => .error s!"Cannot index {v.typeName} with {k.typeName}"
 
@@ -362,35 +411,110 @@ def JV.fromstream (evs : List (JV N)) : Except String (List (JV N)) :=
 def JV.toEntries (fs : List (String × JV N)) : List (JV N) :=
   fs.map fun (k, v) => .obj [("key", .str k), ("value", v)]
 
-/-- delete one path (jq `delpaths` deletes longest-first; here a single path). Missing steps are
-no-ops. -/
-def JV.delStep (v : JV N) (k : JV N) : Except String (JV N) :=
-  match v, k with
-  | .null, _ => .ok .null
-  | .obj fs, .str s => .ok (.obj (JV.erase fs s))
-  | .arr xs, .num n =>
-    match NumOps.toInt? n with
-    | some i =>
-      match resolveIdx i xs.length with
-      | some j => .ok (.arr (xs.eraseIdx j))
-      | none => .ok (.arr xs)
-    | none => .error "UNMODELLED non-integer index"
-  | .arr _, .obj _ => .error "UNMODELLED slice path"
-  | .str _, .obj _ => .error "UNMODELLED slice path"
-  | .obj _, k => .error s!"Cannot delete {k.typeName} field of object"
-  | .arr _, k => .error s!"Cannot delete {k.typeName} element of array"
-  | v, _ => .error s!"Cannot delete fields from {v.typeName}"
+/-- `delpaths`: every key naming a child of one container is resolved against the container as it
+was on entry and removed in a single pass (overlapping ranges union, a repeated index deletes once);
+a step that reaches `null` or an out-of-range index is a no-op. -/
+def JV.delPaths (fuel : Nat) (v : JV N) (paths : List (List (JV N))) : Except String (JV N) :=
+  match fuel with
+  | 0 => .error "UNMODELLED delpaths depth"
+  | fuel + 1 =>
+    if paths.isEmpty then .ok v
+    else if paths.any (·.isEmpty) then .ok .null
+    else
+      let tailsOf (pred : JV N → Bool) : List (List (JV N)) :=
+        paths.filterMap fun p => match p with
+          | k :: rest => if pred k then some rest else none
+          | [] => none
+      match v with
+      | .null => .ok .null
+      | .obj fs =>
+        (match paths.find? (fun p => match p.head? with | some (.str _) => false | _ => true) with
+         | some bad => .error s!"Cannot delete {(bad.headD .null).typeName} field of object"
+         | none =>
+           let step (acc : Except String (List (String × JV N))) (f : String × JV N) :=
+             match acc with
+             | .error m => .error m
+             | .ok out =>
+               let tails := tailsOf (fun k => match k with | .str s => s == f.1 | _ => false)
+               if tails.any (·.isEmpty) then .ok out
+               else if tails.isEmpty then .ok (f :: out)
+               else match JV.delPaths fuel f.2 tails with
+                 | .ok x => .ok ((f.1, x) :: out)
+                 | .error m => .error m
+           (fs.foldl step (.ok [])).map fun out => .obj out.reverse)
+      | .arr xs =>
+        let len := xs.length
+        -- classify keys
+        let bad := paths.find? (fun p => match p.head? with | some (.num _) | some (.obj _) => false | _ => true)
+        match bad with
+        | some b => .error s!"Cannot delete {(b.headD .null).typeName} element of array"
+        | none =>
+          -- resolved index of a number key (none = no such element)
+          let idxKey (k : JV N) : Except String (Option Nat) :=
+            match k with
+            | .num n =>
+              (match idxOf n with
+               | some (some i) =>
+                 (match resolveIdx i len with
+                  | some j => .ok (if j < len then some j else none)
+                  | none => .ok none)
+               | some none => .ok none
+               | none => .error "UNMODELLED non-integer index")
+            | _ => .ok none
+          -- slices with a non-empty tail together with other keys: not modelled
+          let sliceDeep := paths.filter fun p => match p with | .obj _ :: _ :: _ => true | _ => false
+          if !sliceDeep.isEmpty then
+            (match paths with
+             | [.obj k :: rest] =>
+               (match sliceRange k len with
+                | .ok (s, e) =>
+                  (match JV.delPaths fuel (.arr ((xs.drop s).take (e - s))) [rest] with
+                   | .ok (.arr ys) => .ok (.arr (xs.take s ++ ys ++ xs.drop e))
+                   | .ok _ => .error "UNMODELLED slice delete"
+                   | .error m => .error m)
+                | .error m => .error m)
+             | _ => .error "UNMODELLED slice delete with siblings")
+          else
+            -- ranges deleted outright
+            let ranges : Except String (List (Nat × Nat)) :=
+              paths.foldl (fun acc p =>
+                match acc, p with
+                | .error m, _ => .error m
+                | .ok rs, [.obj k] => (match sliceRange k len with | .ok r => .ok (r :: rs) | .error m => .error m)
+                | .ok rs, _ => .ok rs) (.ok [])
+            match ranges with
+            | .error m => .error m
+            | .ok rs =>
+              let step (acc : Except String (List (JV N) × Nat)) (x : JV N) : Except String (List (JV N) × Nat) :=
+                match acc with
+                | .error m => .error m
+                | .ok (out, i) =>
+                  if rs.any (fun r => r.1 ≤ i && i < r.2) then .ok (out, i + 1)
+                  else
+                    -- tails of number keys resolving to i
+                    let tailsE : Except String (List (List (JV N))) :=
+                      paths.foldl (fun acc p =>
+                        match acc, p with
+                        | .error m, _ => .error m
+                        | .ok ts, k :: rest =>
+                          (match idxKey k with
+                           | .ok (some j) => if j == i then .ok (rest :: ts) else .ok ts
+                           | .ok none => .ok ts
+                           | .error m => .error m)
+                        | .ok ts, [] => .ok ts) (.ok [])
+                    match tailsE with
+                    | .error m => .error m
+                    | .ok tails =>
+                      if tails.any (·.isEmpty) then .ok (out, i + 1)
+                      else if tails.isEmpty then .ok (x :: out, i + 1)
+                      else match JV.delPaths fuel x tails with
+                        | .ok y => .ok (y :: out, i + 1)
+                        | .error m => .error m
+              (xs.foldl step (.ok ([], 0))).map fun r => .arr r.1.reverse
+      | v => .error s!"Cannot delete fields from {v.typeName}"
 
-def JV.delpath (v : JV N) : List (JV N) → Except String (JV N)
-  | [] => .ok .null
-  | [k] => v.delStep k
-  | k :: rest => do
-    let w ← v.getStep k
-    match w with
-    | .null => .ok v
-    | w => do
-      let w' ← JV.delpath w rest
-      v.updStep k (fun _ => .ok w')
+/-- single-path delete (kept for the path laws) -/
+def JV.delpath (v : JV N) (p : List (JV N)) : Except String (JV N) := JV.delPaths 200 v [p]
 
 end paths
 
